@@ -432,7 +432,7 @@ theorem C01_save_metas_syncs_around_write :
 
 /-- **the full discipline holds for every run of the writer model**: for every state whose newest
 `meta.json` is durable (`Synced`: true after `Index::create` and after every event), and EVERY
-sequence of writer events — segment flushes of workers and merge threads, commits, `end_merge`s
+sequence of writer events — file-phase operations of any number of indexing workers / merge\nthreads in any interleaving (`WEv.files`), whole-segment flushes, commits, `end_merge`s
 of committed segments (with their own `save_metas` + collection), explicit collections, in any
 order and number, which is what any merge policy or policy switch can produce — whose local side
 conditions hold, the issued storage operations break NONE of D0–D4. With
@@ -509,5 +509,32 @@ theorem C01_writer_runs_recover_from_created (a b : Nat) (evs : List WEv)
   C01_writer_runs_recover PState.created C01_created_inv C01_created_synced a b evs hr k img hc
 
 example : ∃ m, Op.atomicWrite META m ∈ demoTrace.take 30 ∧ m.commit = 2 := ⟨⟨2, 7, 40, [5]⟩, by decide, rfl⟩
+
+/-- **the per-run verdict is literally the hypothesis of the main theorem**: what the driver
+decides on a real operation log — `invB` of the state reached when `Index::create` returned and
+`Disciplined` of the rest of the log from that state — are exactly the two hypotheses of
+`C01_recover_disciplined`; so for every real log on which the run-time verdict is "ok", every
+prefix and every crash image recovers a commit in `[lastAcked, lastStarted]` with all files sealed. -/
+theorem C01_run_verdict_is_hypothesis (s0 : PState) (pre t : List Op)
+    (hinv : invB (s0.run pre) = true) (hd : Disciplined (s0.run pre) t = true) (k : Nat) (img : Image)
+    (hi : CrashImage ((s0.run pre).dir.run (t.take k)) img) :
+    ∃ j, recover img = some j ∧ lastAcked (s0.run pre).acked (t.take k) ≤ j ∧
+      j ≤ lastStarted (s0.run pre).started (t.take k) ∧
+      ∃ m, img.atom META = some m ∧ m.commit = j ∧ ∀ p ∈ m.refs, sealedIn img p = true :=
+  C01_recover_disciplined _ ((invB_iff _).mp hinv) t hd k img hi
+
+example : invB PState.created = true := by decide
+example : invB ({ dir := Dir.empty, acked := 0, started := 0 } : PState) = false := by decide
+
+
+/-- non-vacuity of the generalised file event: two workers writing two segments' files
+interleaved, then a commit that references both -/
+example : WRun 0 0 PState.created
+    [ .files [.atomicWrite MANAGED ⟨0, 1, 9, [0, 2]⟩, .create 2, .atomicWrite MANAGED ⟨0, 2, 9, [0, 2, 3]⟩, .create 3,
+              .write 3 4, .write 2 6, .write 2 4, .flush 3, .terminate 3, .flush 2, .terminate 2],
+      .commit ⟨0, 3, 9, [0, 2, 3]⟩ [] ⟨5, 4, 50, [2, 3]⟩ [] ] := by
+  simp [WRun, WOk, fileOpsOk, isFileOp, violations, freshFiles, WEv.ops, coreOps, writeAll, syncs, PState.created,
+    PState.run, PState.step, Dir.step, Dir.empty, upd, FileSt.ready, FileSt.sync, metaCands, AtomSt.cands,
+    AtomSt.sync, AtomSt.visible, META, MANAGED]
 
 end TantivyModel.C01
